@@ -451,3 +451,47 @@ def cfg_of(funcnode):
     if k not in _cfg_cache:
         _cfg_cache[k] = (funcnode, CFG(funcnode))
     return _cfg_cache[k][1]
+
+
+# ---------------------------------------------------------------------- boolean returns as branches
+_desugared = {}
+
+
+def desugar_bool_returns(funcnode):
+    """A copy of the function in which `return <boolean expression>` (and / or / not / comparison) is written
+    as `if <expression>: return True` / `else: return False`, so that a predicate written as one expression and the
+    same predicate written with early returns have the same flow graph (short-circuit tests, constant returns).
+    Positions are kept; nested functions are left alone."""
+    import copy
+    k = id(funcnode)
+    if k in _desugared:
+        return _desugared[k][1]
+
+    class T(ast.NodeTransformer):
+        def __init__(self):
+            self.depth = 0
+
+        def visit_FunctionDef(self, node):
+            self.depth += 1
+            if self.depth > 1:
+                self.depth -= 1
+                return node
+            self.generic_visit(node)
+            self.depth -= 1
+            return node
+
+        def visit_Lambda(self, node):
+            return node
+
+        def visit_Return(self, node):
+            v = node.value
+            if isinstance(v, (ast.BoolOp, ast.Compare)) or (isinstance(v, ast.UnaryOp) and isinstance(v.op, ast.Not)):
+                t = ast.copy_location(ast.Return(value=ast.copy_location(ast.Constant(value=True), node)), node)
+                f = ast.copy_location(ast.Return(value=ast.copy_location(ast.Constant(value=False), node)), node)
+                new = ast.copy_location(ast.If(test=v, body=[t], orelse=[f]), node)
+                return ast.fix_missing_locations(new)
+            return node
+    new = T().visit(copy.deepcopy(funcnode))
+    ast.fix_missing_locations(new)
+    _desugared[k] = (funcnode, new)
+    return new
